@@ -121,7 +121,14 @@ def run_history(ctx: Ctx, P, M, ops):
                 if ts[op[1]].grad is not None:
                     ts[op[1]].grad.add_(torch.tensor([float(x) for x in op[2]], dtype=dtype).reshape(ts[op[1]].shape))
             elif op[0] == "set":
-                ts[op[1]].grad = torch.tensor([float(x) for x in op[2]], dtype=dtype).reshape(ts[op[1]].shape)
+                g0 = torch.tensor([float(x) for x in op[2]], dtype=dtype).reshape(ts[op[1]].shape)
+                if g0.dim() >= 2 and (step + len(op[2])) % 2 == 0:
+                    # same values, NON-contiguous memory layout (e.g. a .grad left by a channels_last / transposed
+                    # computation): in-place accumulation must still go through it
+                    rev = list(range(g0.dim()))[::-1]
+                    g0 = g0.permute(rev).contiguous().permute(rev)
+                    ctx.count("preexisting_grad_non_contiguous")
+                ts[op[1]].grad = g0
         except Exception as e:  # noqa: BLE001
             rerr = classify_exc(e)
         rg = {k: (None if ts[k].grad is None else
